@@ -270,14 +270,14 @@ def _directed(n, ma, mf, val):
 
 
 def _configs(ctx: Check, rng):
-    ns = ctx.pick([1, 2, 3, 4, 5, 6, 7, 8, 9, 16, 17], list(range(1, 20)) + [31, 32, 33])
+    ns = ctx.pick([1, 2, 3, 4, 5, 6, 7, 8, 9, 16, 17], list(range(1, 13)) + [16, 17, 31, 32, 33])
     out = []
     for n in ns:
         pairs = {(1, 1), (2, 2), (n, n), (n + 1, 2), (3, n + 2)}
         if ctx.thorough or n % 2:
             pairs.add((rng.randint(1, n + 1), rng.randint(1, n + 1)))
         if ctx.thorough:
-            pairs |= {(0, 1), (1, 0), (2, 1), (1, 2), (4, 3), (2 * n + 1, 2 * n + 1), (n - 1 or 1, n - 1 or 1)}
+            pairs |= {(0, 1), (1, 0), (2, 1), (4, 3), (2 * n + 1, 2 * n + 1)}
         elif n == 3:
             pairs |= {(0, 1), (1, 0)}
         for ma, mf in sorted(pairs):
@@ -289,7 +289,7 @@ def _configs(ctx: Check, rng):
 def gen_cases(ctx: Check) -> tuple[list[Case], list[Case]]:
     rng = ctx.rng("gen")
     valid, malformed = [], []
-    length = ctx.pick(100, 600)
+    length = ctx.pick(100, 300)
     for n, ma, mf, val in _configs(ctx, rng):
         valid.append(_mk(n, ma, mf, val, _directed(n, ma, mf, val), "directed"))
         regimes = [(0.9, 0.3, 0.01, 0.3), (0.3, 0.9, 0.01, 0.3), (0.8, 0.8, 0.03, 0.2), (1.0, 1.0, 0.0, 0.1)]
